@@ -33,6 +33,11 @@ def dataset(rng, xr, nfs=(2, 3, 5, 9, 14), exact=False, maxlead=2):
         # a calm record (no energy at all) among the others
         A.reshape((-1,) + A.shape[-2:])[int(rng.integers(int(np.prod(lsizes))))] = 0.0
     dt = str(rng.choice(["float64", "float32"]))
+    if rng.random() < 0.1 and float(A.max()) > 0:
+        # spectra stored as integers (counts, unscaled packed values): a split keeps them, an interpolated cutoff bin or a
+        # variance-preserving factor gives values that are not whole numbers
+        A = np.rint(A / (float(A.max()) / float(rng.choice([40.0, 300.0, 3000.0]))))
+        dt = str(rng.choice(["int32", "int64"]))
     x = gen.make_da(A, f, th, lnames, lsizes, dtype=dt)
     stored = str(rng.choice(["sorted", "sorted", "rolled", "reversed"]))
     if stored == "rolled":
